@@ -40,6 +40,7 @@ def units(tier):
         SL("slice.worker_exit_executor_collected", "x3_worker_exit_vs_submit", 30, params={"with_user": False, "collected": True}),
         SL("slice.terminate_broken", "x6_terminate_broken", 44),
         SL("slice.terminate_broken_vs_submit", "x6_terminate_broken", 70, params={"with_user": True}),
+        SL("slice.crash_after_respawn", "x10_crash_after_respawn", 60, params={"live0": 0}),
         SL("slice.dispatch_vs_cancel", "x1_dispatch_vs_cancel", 16),
         SL("slice.feeder_error_vs_dispatch", "x2_feeder_error_vs_dispatch", 26),
         H("C01", "lokyverif.harness.c10_resize", "check_resize_terminates", t, ["loky.reusable_executor:_ReusablePoolExecutor._resize"], "old != new in 1..3, dead workers before/after the spawn, pool breaks meanwhile"),
